@@ -257,4 +257,20 @@ CHECKS = {
         "required_probes": ["honest_handshake_completed", "responder_accepted", "requester_succeeded", "victim_signature_over_constant_obtained"],
         "assumptions": COMMON_ASSUMPTIONS + ["the adversary is symbolic: it can do anything with bytes and keys it holds, it cannot forge Ed25519 signatures or open boxes without the key"],
     },
+    "C12": {
+        "pkg": ".",
+        "test": "TestVerifC12",
+        "level": "exploration",
+        "proc_timeout": "60m",
+        "quick": {"procs": 32, "checks_per_proc": 40},
+        "thorough": {"procs": 64, "checks_per_proc": 400},
+        "rule": "one case = either (a) one random invitation offered to the real GroupJoin of a joiner's account group under every "
+                "single-bit flip of its serialized bytes, field removal, group-type substitution and foreign secret/signature, then "
+                "the genuine invitation and the identity check in the joined group; or (b) a group session of 2-3 members writing "
+                "2-11 metadata/message entries with a replication node (real WeshOrbitDB in replication mode, descriptor only) in "
+                "the simulated network under seeded deliveries. non-trivial = a fault was applied (a) or a simulator-chosen delivery "
+                "happened (b); distinct = distinct hash of the trace.",
+        "required_probes": ["genuine_invitation_joined", "replication_node_converged", "descriptor_cannot_read"],
+        "assumptions": COMMON_ASSUMPTIONS,
+    },
 }
